@@ -13,8 +13,8 @@ mod refint;
 use agent::{C6Agent, C6Lifecycle};
 use asys::agent::TruthLog;
 use asys::grid::{replay, run_grid, GridSpec};
-use asys::scripts::{cmd, link};
-use asys::world::{set_agent_factory, set_checker, AsWorld, Cfg};
+use asys::scripts::{cmd, link, sync};
+use asys::world::{set_agent_factory, set_checker, AsWorld, Cfg, Mode, Step};
 use prog::*;
 use serde_json::json;
 use std::collections::HashSet;
@@ -61,7 +61,10 @@ struct ChunkOut {
 
 /// Run one program on the canonical schedule with `ncmds` commands.
 fn run_program(p: &Program, variant: usize, out: &mut ChunkOut, check_determinism: bool) {
-    let cfg = cfg_for(p, variant);
+    run_cfg(p, cfg_for(p, variant), out, check_determinism)
+}
+
+fn run_cfg(p: &Program, cfg: Cfg, out: &mut ChunkOut, check_determinism: bool) {
     match run_one::<AsWorld>(&cfg, &[], false) {
         Ok(rec) => {
             out.executions += 1;
@@ -118,7 +121,7 @@ fn run_e4(ctx: &Ctx, spec: E4Spec) {
     let mut samples = vec![];
     const CHUNK: u64 = 256;
     for total in spec.min_size..=spec.max_size_1 {
-        let bl = blocks(&mut trees, total, spec.with_start_stop);
+        let bl = blocks(&mut trees, total, spec.with_start_stop, true);
         let mut work: Vec<(usize, u64, u64)> = vec![];
         for (bi, b) in bl.iter().enumerate() {
             let mut s = 0;
@@ -227,13 +230,170 @@ fn run_e4(ctx: &Ctx, spec: E4Spec) {
     });
 }
 
+/// Scripts in which the remote talks to the lanes directly: link / sync requests (which trigger no
+/// lifecycle handler) interleaved with commands to v, w and m (which start cascades without the
+/// root handler) and commands to c.
+fn runtime_scripts() -> Vec<(&'static str, Vec<(usize, Step)>, Ext)> {
+    let s = |steps: Vec<Step>| steps.into_iter().map(|x| (0usize, x)).collect::<Vec<_>>();
+    let go = || cmd("c", "go");
+    vec![
+        ("v-link-set-sync-set", s(vec![link("v"), cmd("v", "5"), sync("v"), cmd("v", "6"), go()]), Ext { v: true, ..Default::default() }),
+        ("v-sync-go-sync-go", s(vec![sync("v"), go(), sync("v"), go()]), Ext::default()),
+        ("m-link-upd-sync-rem", s(vec![link("m"), cmd("m", "@update(key:1) 7"), sync("m"), cmd("m", "@remove(key:1)"), go()]), Ext { upd: true, rem: true, ..Default::default() }),
+        (
+            "w-m-mixed",
+            s(vec![link("w"), sync("m"), cmd("w", "3"), sync("w"), cmd("m", "@update(key:2) 8"), go(), cmd("w", "4"), sync("w"), cmd("m", "@clear")]),
+            Ext { w: true, upd: true, clr: true, ..Default::default() },
+        ),
+    ]
+}
+
+/// Runtime parameters: (lane -> runtime channel size, delivery mode, coop budget).
+fn runtime_params(full: bool) -> Vec<(usize, Mode, usize)> {
+    let mut out = vec![];
+    for lane_buf in [8usize, 4096] {
+        for mode in [Mode::Eager, Mode::Burst] {
+            for budget in [2usize, 64] {
+                if full || lane_buf == 8 || (mode == Mode::Eager && budget == 64) {
+                    out.push((lane_buf, mode, budget));
+                }
+            }
+        }
+    }
+    out
+}
+
+fn runtime_cfg(p: &Program, script: &[(usize, Step)], (lane_buf, mode, budget): (usize, Mode, usize)) -> Cfg {
+    let mut c = cfg_for(p, 1);
+    c.script = script.to_vec();
+    c.lane_buf = lane_buf;
+    c.mode = mode;
+    c.budget = budget;
+    c
+}
+
+/// All programs (command cascades; lane slots may be non-empty without a handler that triggers
+/// them, the script does) up to `max_size`, each with every script that can reach its non-empty
+/// slots, on the canonical schedule of every runtime parameter combination.
+fn run_runtime_grid(ctx: &Ctx, name: &'static str, max_size_full: usize, max_size_core: usize, wall_cap_s: f64) {
+    let t0 = Instant::now();
+    let mut trees = Trees::default();
+    let scripts = runtime_scripts();
+    let mut tot = ChunkOut::default();
+    let mut digests: HashSet<u64> = HashSet::new();
+    let mut per_size = vec![];
+    let mut capped = false;
+    let mut samples = vec![];
+    for total in 0..=max_size_core {
+        let params = runtime_params(total <= max_size_full);
+        let bl = blocks(&mut trees, total, false, false);
+        let mut work: Vec<(usize, u64, u64)> = vec![];
+        for (bi, b) in bl.iter().enumerate() {
+            let mut s = 0;
+            while s < b.count {
+                let e = (s + 64).min(b.count);
+                work.push((bi, s, e));
+                s = e;
+            }
+        }
+        let results: Vec<Option<ChunkOut>> = vcommon::par_map(&work, vcommon::ncpu(), |wi, &(bi, s, e)| {
+            if t0.elapsed().as_secs_f64() > wall_cap_s {
+                return None;
+            }
+            let mut out = ChunkOut::default();
+            for ix in s..e {
+                let p = bl[bi].program(ix);
+                let mut any = false;
+                for (si, (_, script, ext)) in scripts.iter().enumerate() {
+                    if !p.reachable_with(*ext) {
+                        continue;
+                    }
+                    any = true;
+                    for (pi, prm) in params.iter().enumerate() {
+                        let cfg = runtime_cfg(&p, script, *prm);
+                        if out.sample.is_none() && wi % 53 == 0 && si == 0 && pi == 0 && p.slots[V_SET].is_some() {
+                            out.sample = Some(json!({"program": p.to_string(), "script": format!("{:?}", script), "lane_buf": prm.0, "mode": format!("{:?}", prm.1), "budget": prm.2}));
+                        }
+                        run_cfg(&p, cfg, &mut out, ix == s && si == 0 && pi == 0 && wi % 8 == 0);
+                    }
+                }
+                if any {
+                    out.programs += 1;
+                    if (1..8).any(|sl| p.slots[sl].is_some()) {
+                        out.nontrivial += 1;
+                    }
+                } else {
+                    out.unreachable += 1;
+                }
+            }
+            Some(out)
+        });
+        let mut size_programs = 0u64;
+        let mut size_exec = 0u64;
+        let mut skipped = 0usize;
+        for r in results {
+            match r {
+                None => skipped += 1,
+                Some(o) => {
+                    size_programs += o.programs;
+                    size_exec += o.executions;
+                    tot.programs += o.programs;
+                    tot.unreachable += o.unreachable;
+                    tot.executions += o.executions;
+                    tot.steps += o.steps;
+                    tot.nontrivial += o.nontrivial;
+                    digests.extend(o.digests);
+                    for (sig, expl, cfg) in o.violations {
+                        ctx.violation(name, &sig, json!({"cfg": serde_json::to_value(&cfg).unwrap(), "choices": [], "what": expl.lines().next().unwrap_or(""), "input": expl.lines().nth(1).unwrap_or(""), "explanation": expl}));
+                    }
+                    if !o.machinery.is_empty() {
+                        eprintln!("machinery errors: {:?}", &o.machinery[..o.machinery.len().min(3)]);
+                        vcommon::machinery_failure("C06 runtime grid: execution failed or was not deterministic (see above)");
+                    }
+                    if let Some(s) = o.sample {
+                        if samples.len() < 3 {
+                            samples.push(s);
+                        }
+                    }
+                }
+            }
+        }
+        per_size.push(json!({"total_size": total, "programs": size_programs, "executions": size_exec, "runtime_parameter_combinations": params.len(), "chunks_skipped_by_wall_cap": skipped}));
+        eprintln!("[C06] {} size {}: programs={} executions={} skipped_chunks={} t={:.1}s", name, total, size_programs, size_exec, skipped, t0.elapsed().as_secs_f64());
+        if skipped > 0 {
+            capped = true;
+            break;
+        }
+    }
+    ctx.add_leg(Leg {
+        name: name.into(),
+        engine: "E4-programs".into(),
+        states: tot.programs,
+        transitions: tot.steps,
+        evaluations: tot.executions,
+        distinct_nontrivial: tot.nontrivial,
+        rule: "every assignment of handler programs to root and the lane slots with the stated total size (lane slots need no triggering handler: the script commands the lanes) x every script that reaches its non-empty slots x runtime parameters, canonical schedule, compared with the reference interpreter (requests of one lane in order, order between lanes free, link/sync trigger nothing); non-trivial = programs with a non-empty lane lifecycle slot".into(),
+        samples,
+        exhaustive: !capped,
+        bounds: json!({
+            "scripts": scripts.iter().map(|(n, s, _)| json!({"name": n, "steps": format!("{:?}", s.iter().map(|x| &x.1).collect::<Vec<_>>())})).collect::<Vec<_>>(),
+            "runtime_parameters_full": "lane_buf {8, 4096} x mode {Eager, Burst} x budget {2, 64}",
+            "runtime_parameters_core": "lane_buf 8 x mode {Eager, Burst} x budget {2, 64}, plus lane_buf 4096 / Eager / 64",
+            "max_total_size_full_parameters": max_size_full, "max_total_size_core_parameters": max_size_core,
+            "wall_cap_s": wall_cap_s, "wall_cap_hit": capped, "per_size": per_size,
+            "assignments_not_reached_by_any_script": tot.unreachable, "distinct_observation_digests": digests.len(),
+        }),
+        wall_s: t0.elapsed().as_secs_f64(),
+    });
+}
+
 /// Programs for the schedule leg: the `n` smallest programs (command cascades only) followed by the
 /// first `deep` programs of size 4 in which at least two lane handlers with a body run nested.
 fn e1_programs(n: usize, deep: usize) -> Vec<Program> {
     let mut trees = Trees::default();
     let mut out = vec![];
     'small: for total in 0..4 {
-        for b in blocks(&mut trees, total, false) {
+        for b in blocks(&mut trees, total, false, true) {
             for ix in 0..b.count {
                 let p = b.program(ix);
                 if p.reachable() {
@@ -246,7 +406,7 @@ fn e1_programs(n: usize, deep: usize) -> Vec<Program> {
         }
     }
     let mut d = 0;
-    'deep: for b in blocks(&mut trees, 4, false) {
+    'deep: for b in blocks(&mut trees, 4, false, true) {
         // spread over the blocks: at most a few per size distribution
         let mut per_block = 0;
         for ix in 0..b.count {
@@ -279,7 +439,7 @@ fn main() {
         // debugging aid: size of the program space
         let mut trees = Trees::default();
         for total in 0..=p.parse::<usize>().unwrap_or(5) {
-            let bl = blocks(&mut trees, total, std::env::var("C06_SS").is_ok());
+            let bl = blocks(&mut trees, total, std::env::var("C06_SS").is_ok(), std::env::var("C06_NOL0").is_err());
             let all: u64 = bl.iter().map(|b| b.count).sum();
             let reach: u64 = bl.iter().map(|b| (0..b.count).filter(|&i| b.program(i).reachable()).count() as u64).sum();
             eprintln!("size {}: blocks={} assignments={} reachable={}", total, bl.len(), all, reach);
@@ -335,6 +495,38 @@ fn main() {
     if !quick {
         // the next size as far as the wall budget allows (reported as not exhaustive when capped)
         run_e4(&ctx, E4Spec { name: "e4-command-cascades-size6", min_size: 6, max_size_1: 6, max_size_2: 0, wall_cap_s: 240.0, with_start_stop: false });
+    }
+    // E4 (c): lane commands, link and sync requests, tiny lane -> runtime channels, burst delivery
+    if quick {
+        run_runtime_grid(&ctx, "e4-runtime-grid", 1, 2, 20.0);
+    } else {
+        run_runtime_grid(&ctx, "e4-runtime-grid", 2, 3, 300.0);
+    }
+    // E1 (c): the same scripts under every schedule with one deviation, for a subset of programs
+    {
+        let mut trees = Trees::default();
+        let mut ps: Vec<Program> = vec![];
+        for total in 0..=2 {
+            for b in blocks(&mut trees, total, false, false) {
+                let stride = if total < 2 { 1 } else if quick { 61 } else { 7 };
+                let mut ix = 0;
+                while ix < b.count {
+                    ps.push(b.program(ix));
+                    ix += stride;
+                }
+            }
+        }
+        let mut cfgs = vec![];
+        for p in &ps {
+            for (_, script, ext) in runtime_scripts() {
+                if p.reachable_with(ext) {
+                    for prm in [(8usize, Mode::Burst, 64usize), (8, Mode::Eager, 2)] {
+                        cfgs.push(runtime_cfg(p, &script, prm));
+                    }
+                }
+            }
+        }
+        run_grid(&ctx, GridSpec { name: "e1-runtime-d1".into(), cfgs, bound: 1, max_exec_per_cfg: 50_000, wall_cap_s: if quick { 12.0 } else { 200.0 } });
     }
     // E1: the smallest programs under every schedule with a bounded number of deviations; the
     // remote is linked to v, w and m so that the runtime is writing events while handlers run
